@@ -177,6 +177,11 @@ func (s *SearchParams) String() string {
 }
 
 func (s *SearchParams) QueryEscape(st string, output *strings.Builder) {
+	// Same choice as the parser's query state: the result becomes the query of s.url.
+	encodeSet := s.url.parser.opts.queryPercentEncodeSet
+	if s.url.isSpecialScheme(s.url.scheme) {
+		encodeSet = s.url.parser.opts.specialQueryPercentEncodeSet
+	}
 	for _, b := range st {
 		if b == 0x0020 {
 			output.WriteRune(0x002B)
@@ -185,7 +190,7 @@ func (s *SearchParams) QueryEscape(st string, output *strings.Builder) {
 			// the serialized list parses back as a different list.
 			output.WriteString(s.url.parser.percentEncodeRune(b, nil))
 		} else {
-			output.WriteString(s.url.parser.percentEncodeRune(b, s.url.parser.opts.queryPercentEncodeSet))
+			output.WriteString(s.url.parser.percentEncodeRune(b, encodeSet))
 		}
 	}
 }
